@@ -562,8 +562,9 @@ func (f *lambdaCallable) validArgType(arg reflect.Value, p jparse.Param) bool {
 
 	paramTypeJSON := typ&jparse.ParamTypeJSON != 0
 
-	// TODO: Handle ParamTypeNull
 	switch {
+	case arg.IsValid() && isNull(arg):
+		return paramTypeJSON || typ&jparse.ParamTypeNull != 0
 	case jtypes.IsString(arg):
 		return paramTypeJSON || typ&jparse.ParamTypeString != 0
 	case jtypes.IsNumber(arg):
